@@ -223,7 +223,7 @@ pub fn batch(lo: i32, hi: i32, mul: i32) -> RecordBatch {
 }
 fn reader(b: RecordBatch) -> RecordBatchIterator<std::vec::IntoIter<std::result::Result<RecordBatch, arrow_schema::ArrowError>>> {
     let s = b.schema();
-    RecordBatchIterator::new(vec![Ok(b)], s)
+    RecordBatchIterator::new(vec![Ok(b)].into_iter(), s)
 }
 
 pub const OPS: [&str; 14] = [
